@@ -11,7 +11,8 @@ EXPLANATION = (
     "now > created + ttl·500, send_query_vec clones each record, applies update_ttl(now) and adds it as an answer, "
     "update_ttl subtracts elapsed/1000 only when now > created and cannot underflow given the half-life filter; "
     "(d) the send loop over my_intfs does not depend on the known-answer list.  Decides that the code computes the "
-    "quoted formulas, not wire behaviour at the boundary values.")
+    "quoted formulas, not wire behaviour at the boundary values."
+    " (e) A suppressed PTR takes its SRV/TXT/address additionals with it.")
 UNDECIDED = ["behaviour at the boundary values on the wire (that is what F12 pins to the formula, no more)",
              "responder handling of multi-packet known-answer lists (TC bit)"]
 
